@@ -186,9 +186,10 @@ func (n *c45Net) observe(p *c45Pkt) {
 	}
 }
 
-// observeHandshake checks an honest handshake packet answering challenge ch and
+// observeHandshake checks an honest handshake packet answering the challenge the
+// sender received (challenge data and record seq as decoded at receipt) and
 // derives the session keys of its generation.
-func (n *c45Net) observeHandshake(p *c45Pkt, ch *Whoareyou) {
+func (n *c45Net) observeHandshake(p *c45Pkt, challengeData []byte, challengeSeq uint64) {
 	if c45NoObserver {
 		return
 	}
@@ -205,10 +206,10 @@ func (n *c45Net) observeHandshake(p *c45Pkt, ch *Whoareyou) {
 	}
 	sig, eph, rec := w.auth[34:98], w.auth[98:131], w.auth[131:]
 	if !bytes.Equal(rec, p.rec) {
-		n.wireFail(p, "record in handshake %x, expected %x (challenge seq %d, own seq %d)", rec, p.rec, ch.RecordSeq, p.seq)
+		n.wireFail(p, "record in handshake %x, expected %x (challenge seq %d, own seq %d)", rec, p.rec, challengeSeq, p.seq)
 	}
 	pub := refsecp.Compress(refsecp.Point{X: x.key.PublicKey.X, Y: x.key.PublicKey.Y})
-	digest := c45IDNonceHash(ch.ChallengeData, eph, y.id)
+	digest := c45IDNonceHash(challengeData, eph, y.id)
 	if ok, why := refsecp.VerifySig(pub, digest, sig); !ok {
 		n.wireFail(p, "id signature does not verify over (challenge-data, ephemeral key, destination id): %s", why)
 	}
@@ -221,7 +222,7 @@ func (n *c45Net) observeHandshake(p *c45Pkt, ch *Whoareyou) {
 		n.wireFail(p, "ECDH result is the point at infinity")
 	}
 	info := append(append([]byte("discovery v5 key agreement"), x.id[:]...), y.id[:]...)
-	okm := c45HKDF32(refsecp.Compress(shared), ch.ChallengeData, info)
+	okm := c45HKDF32(refsecp.Compress(shared), challengeData, info)
 	k := &c45GenKeys{initKey: okm[:16], respKey: okm[16:32], initiator: x}
 	n.keys[p.gen] = k
 	pt, ok := c45GCMOpen(k.initKey, w.nonce, w.msg, w.ad())
